@@ -307,6 +307,16 @@ def units():
                     # quick: every wrapper at channels 2; short wrappers over the whole quick channel set
                     tier = "quick" if (ch == 2 or (T == "short" and ch in (1, 3, 1024)) or (T == "float" and ch == 3)) else "thorough"
                     U.append(rw_unit(kind, T, framesv, ch, tier))
+    for nm, fn, d, props, repl in (("sf_close", "sf_close", "U_CLOSE", ["C16", "C09"], ["psf_close", "psf_file_valid"]),
+                                   ("sf_set_string", "sf_set_string", "U_SET_STRING", ["C12", "C09"], ["psf_set_string", "psf_file_valid"]),
+                                   ("sf_get_string", "sf_get_string", "U_GET_STRING", ["C12", "C09"], ["psf_get_string"]),
+                                   ("sf_set_chunk", "sf_set_chunk", "U_SET_CHUNK", ["C13", "C09"], ["psf_file_valid"]),
+                                   ("sf_get_chunk_iterator", "sf_get_chunk_iterator", "U_GET_ITERATOR", ["C13", "C09"], ["psf_get_chunk_iterator", "psf_file_valid"]),
+                                   ("sf_get_chunk_size", "sf_get_chunk_size", "U_GET_SIZE", ["C13", "C09"], ["psf_file_valid"]),
+                                   ("sf_get_chunk_data", "sf_get_chunk_data", "U_GET_DATA", ["C13", "C09"], ["psf_file_valid"])):
+        U.append({"name": "sndfile." + nm, "props": props, "harness": "sndfile_api.harness.c", "entry": "h_api", "enforce": fn, "function": "sndfile.c:" + fn,
+                  "defines": ["-D" + d], "replace": repl, "cbmc_flags": ["--object-bits", "9"], "timeout": 600,
+                  "trusted": ["callee / hook contracts record the forwarded arguments (ghost); their behaviour: strings, chunk and close units"]})
     return U
 
 
